@@ -119,6 +119,11 @@ func (ce *CEnv) eval(e *CExpr) Val {
 		c := ce.evalBool(e.A[0])
 		return mergeVal(c, ce.eval(e.A[1]), ce.eval(e.A[2]))
 	case "forall", "exists":
+		if e.K == "forall" && len(e.Vars) == 1 {
+			if t, ok := ce.expandSyntactic(e); ok {
+				return SV{T: t}
+			}
+		}
 		c := ce.child()
 		var bs []*Term
 		for _, v := range e.Vars {
@@ -566,3 +571,80 @@ func expandBounded(b *Term, body *Term) *Term {
 	return And(out...)
 }
 
+
+// expandSyntactic instantiates  forall v :: L <= v && v < H ==> body  when L and H evaluate to literals (H-L <= 64),
+// evaluating the body once per value (so that v can index explicit vectors).
+func (ce *CEnv) expandSyntactic(e *CExpr) (*Term, bool) {
+	body := e.A[0]
+	if body.K != "bin" || body.S != "==>" {
+		return nil, false
+	}
+	v := e.Vars[0]
+	var conj []*CExpr
+	var flat func(x *CExpr)
+	flat = func(x *CExpr) {
+		if x.K == "bin" && x.S == "&&" {
+			flat(x.A[0])
+			flat(x.A[1])
+			return
+		}
+		conj = append(conj, x)
+	}
+	flat(body.A[0])
+	var lo, hi *big.Int
+	var rest []*CExpr
+	lit := func(x *CExpr) *big.Int {
+		defer func() { recover() }()
+		t := ce.evalTerm(x)
+		if t != nil && t.IsInt() {
+			return t.Int
+		}
+		return nil
+	}
+	mentions := func(x *CExpr) bool { return strings.Contains(" "+x.String()+" ", v) }
+	for _, c := range conj {
+		if c.K == "bin" && len(c.A) == 2 {
+			l, r := c.A[0], c.A[1]
+			switch {
+			case c.S == "<=" && r.K == "ident" && r.S == v && !mentions(l):
+				if b := lit(l); b != nil {
+					lo = b
+					continue
+				}
+			case c.S == "<" && l.K == "ident" && l.S == v && !mentions(r):
+				if b := lit(r); b != nil {
+					hi = b
+					continue
+				}
+			case c.S == "<=" && l.K == "ident" && l.S == v && !mentions(r):
+				if b := lit(r); b != nil {
+					hi = new(big.Int).Add(b, big.NewInt(1))
+					continue
+				}
+			}
+		}
+		rest = append(rest, c)
+	}
+	if lo == nil || hi == nil {
+		return nil, false
+	}
+	n := new(big.Int).Sub(hi, lo)
+	if n.Sign() < 0 || n.Cmp(big.NewInt(64)) > 0 {
+		return nil, false
+	}
+	var out []*Term
+	for k := new(big.Int).Set(lo); k.Cmp(hi) < 0; k = new(big.Int).Add(k, big.NewInt(1)) {
+		c := ce.child()
+		c.bound[v] = BigLit(k)
+		inst := c.evalBool(body.A[1])
+		if len(rest) > 0 {
+			var rs []*Term
+			for _, r := range rest {
+				rs = append(rs, c.evalBool(r))
+			}
+			inst = Imp(And(rs...), inst)
+		}
+		out = append(out, inst)
+	}
+	return And(out...), true
+}
